@@ -194,7 +194,7 @@ func (g *GcsEmu) handleGcsCompose(ctx context.Context, baseUrl HttpBaseUrl, w ht
 	}
 	// Get the composed object name from the path
 	parts := strings.Split(object, "/compose")
-	if len(parts) != 2 {
+	if len(parts) != 2 || parts[0] == "" {
 		g.gapiError(w, http.StatusBadRequest, "bad compose request")
 		return
 	}
@@ -431,6 +431,10 @@ func (g *GcsEmu) handleGcsCopy(ctx context.Context, baseUrl HttpBaseUrl, w http.
 	}
 	b2 := destParts[0]
 	f2 := destParts[1]
+	if f2 == "" {
+		g.gapiError(w, http.StatusBadRequest, fmt.Sprintf("Bad rewrite request, missing destination object name: %s", parts[1]))
+		return
+	}
 
 	// Must lock the destination object.
 	var obj *storage.Object
@@ -534,6 +538,10 @@ func (g *GcsEmu) handleGcsNewObject(ctx context.Context, baseUrl HttpBaseUrl, w 
 			g.gapiError(w, http.StatusBadRequest, "failed to parse body as json")
 			return
 		}
+		if obj.Name == "" {
+			g.gapiError(w, http.StatusBadRequest, "missing object name")
+			return
+		}
 		obj.Bucket = bucket
 
 		nextId := atomic.AddInt32(&g.idCounter, 1)
@@ -551,6 +559,10 @@ func (g *GcsEmu) handleGcsNewObject(ctx context.Context, baseUrl HttpBaseUrl, w 
 		obj, contents, err := readMultipartInsert(r)
 		if err != nil {
 			g.gapiError(w, http.StatusBadRequest, fmt.Sprintf("failed to parse request: %s", err))
+			return
+		}
+		if obj.Name == "" {
+			g.gapiError(w, http.StatusBadRequest, "missing object name")
 			return
 		}
 
